@@ -4,6 +4,7 @@ def b_XMLFileWriter_add_all_objects_from_scenario : CR.SrcW.Builder where
   kind := .fill
   tag := ""
   xsd := "/commonRoad"
+  path := []
   parent := ""
   attrs := []
   gattrs := []
